@@ -333,3 +333,92 @@ func (m *verifLenMAC) Sum(b []byte) []byte {
 func (m *verifLenMAC) Reset()         { m.n = 0 }
 func (m *verifLenMAC) Size() int      { return 32 }
 func (m *verifLenMAC) BlockSize() int { return 64 }
+
+// C12 — stickiness over call sequences: 3 (4) calls, each an arbitrary choice of Read / Write (0 or 1 byte) /
+// CloseWrite / Close, on an established connection whose incoming stream is one genuine record followed by one
+// arbitrary record (which cannot authenticate): after Close every later Close reports net.ErrClosed and Write
+// fails; after CloseWrite every Write (even an empty one) reports the shutdown error; once Read has returned an
+// error every later Read fails with no bytes; once a fatal alert was sent (a Read failed on a bad record) every
+// Write fails.
+//
+//verif:harness props=C12 paths=400000 tpaths=4000000 reach=done
+func VerifHarness_C12_sticky() {
+	iv := verifNondetBytes("iv", 4)
+	wt := &verifConn{}
+	w := newEstablished(wt, vcGCM, iv, true)
+	w.Write([]byte{verifNondetByte("pt")})
+	junk := verifNondetBytes("junk", 5+8+1+16)
+	junk[3], junk[4] = 0, 8+1+16
+	rt := &verifConn{in: append(append([]byte(nil), wt.out...), junk...)}
+	c := newEstablished(rt, vcGCM, iv, false)
+	closed, shut, readFailed, alertSent := false, false, false, false
+	steps := verifBound(3, 4)
+	for i := 0; i < steps; i++ {
+		switch verifSplitInt("call", 0, 3) {
+		case 0:
+			n, err := c.Read(make([]byte, 2))
+			if readFailed {
+				verifAssert("C12.sticky.readKeepsFailing", err != nil && n == 0)
+			}
+			if err != nil {
+				readFailed = true
+				if valerts.n > 0 {
+					alertSent = true
+				}
+			}
+		case 1:
+			l := verifSplitInt("writeLen", 0, 1)
+			n, err := c.Write(make([]byte, l))
+			if closed {
+				verifAssert("C12.sticky.writeAfterCloseFails", err != nil && n == 0)
+			}
+			if shut {
+				verifAssert("C12.sticky.writeAfterCloseWriteFails", err != nil && n == 0)
+			}
+			if alertSent {
+				verifAssert("C12.sticky.writeAfterFatalAlertFails", err != nil && n == 0)
+			}
+			if !closed && !shut && !alertSent {
+				verifAssert("C12.sticky.writeOnHealthyConnection", err == nil && n == l)
+			}
+		case 2:
+			err := c.CloseWrite()
+			if !alertSent && !shut && !closed {
+				verifAssert("C12.sticky.closeWriteOK", err == nil)
+			}
+			shut = true
+		case 3:
+			err := c.Close()
+			if closed {
+				verifAssert("C12.sticky.secondCloseReportsClosed", err == net.ErrClosed)
+			}
+			closed = true
+			shut = true
+		}
+	}
+	verifReach("done")
+}
+
+// C09 — a key-holding peer sends more than maxUselessRecords empty application-data records: Read gives up with
+// an error instead of consuming them without end.
+//
+//verif:harness props=C09 paths=200 depth=600 reach=cutoff
+func VerifHarness_C09_empty_records_flood() {
+	kind := verifSplitInt("cipher", vcGCM, vcCBC)
+	iv := verifNondetBytes("iv", 4)
+	wt := &verifConn{}
+	w := newEstablished(wt, kind, iv, true)
+	var stream []byte
+	for i := 0; i < 20; i++ {
+		rec := []byte{byte(recordTypeApplicationData), 1, 1, 0, 0}
+		rec, _ = w.out.encrypt(rec, nil, verifRandSrc{})
+		stream = append(stream, rec...)
+	}
+	w.Write([]byte{9})
+	stream = append(stream, wt.out...)
+	rt := &verifConn{in: stream}
+	r := newEstablished(rt, kind, iv, false)
+	n, err := r.Read(make([]byte, 2))
+	verifReach("cutoff")
+	verifAssert("C09.useless.emptyRecordFloodIsCutOff", err != nil && n == 0)
+}
